@@ -5,6 +5,7 @@
 #![allow(unused)]
 
 extern crate rustc_abi;
+extern crate rustc_ast;
 extern crate rustc_data_structures;
 extern crate rustc_driver;
 extern crate rustc_hir;
@@ -588,7 +589,7 @@ impl<'a, 'v> rustc_hir::intravisit::Visitor<'v> for UnsafeFinder<'a> {
     }
 }
 
-fn dump<'tcx>(tcx: TyCtxt<'tcx>, out_dir: &str) {
+fn dump<'tcx>(tcx: TyCtxt<'tcx>, out_dir: &str, fmts: Vec<J>) {
     let mut cx = Cx {
         tcx,
         tys: vec![],
@@ -850,6 +851,7 @@ fn dump<'tcx>(tcx: TyCtxt<'tcx>, out_dir: &str) {
         ("autos", J::Arr(autos)),
         ("crate", s(krate.clone())),
         ("crate_types", s(format!("{:?}", tcx.crate_types()))),
+        ("fmts", J::Arr(fmts)),
         ("fns", J::Arr(fns)),
         ("impls", J::Arr(impls)),
         ("traits", J::Arr(traits)),
@@ -866,17 +868,93 @@ fn dump<'tcx>(tcx: TyCtxt<'tcx>, out_dir: &str) {
     std::fs::rename(&tmp, &path).expect("rename facts");
 }
 
+// ---- format_args! facts, read off the expanded AST (the HIR/MIR form is an opaque byte template) ----
+struct FmtV<'a> {
+    sm: &'a rustc_span::source_map::SourceMap,
+    out: Vec<J>,
+}
+
+fn fmt_count(c: &Option<rustc_ast::FormatCount>) -> J {
+    match c {
+        None => J::Null,
+        Some(rustc_ast::FormatCount::Literal(n)) => J::obj(vec![("lit", i(*n as usize))]),
+        Some(rustc_ast::FormatCount::Argument(p)) => J::obj(vec![(
+            "arg",
+            match p.index {
+                Ok(k) => i(k),
+                Err(_) => J::Null,
+            },
+        )]),
+    }
+}
+
+impl<'a, 'ast> rustc_ast::visit::Visitor<'ast> for FmtV<'a> {
+    fn visit_expr(&mut self, e: &'ast rustc_ast::Expr) {
+        if let rustc_ast::ExprKind::FormatArgs(fa) = &e.kind {
+            let mut pieces = vec![];
+            for p in &fa.template {
+                match p {
+                    rustc_ast::FormatArgsPiece::Literal(sym) => pieces.push(J::obj(vec![("lit", s(sym.as_str()))])),
+                    rustc_ast::FormatArgsPiece::Placeholder(ph) => {
+                        let o = &ph.format_options;
+                        pieces.push(J::obj(vec![
+                            ("arg", match ph.argument.index { Ok(k) => i(k), Err(_) => J::Null }),
+                            ("trait", s(format!("{:?}", ph.format_trait))),
+                            ("fill", match o.fill { Some(c) => s(c.to_string()), None => J::Null }),
+                            ("align", match o.alignment { Some(a) => s(format!("{:?}", a)), None => J::Null }),
+                            ("width", fmt_count(&o.width)),
+                            ("precision", fmt_count(&o.precision)),
+                            ("sign", match o.sign { Some(x) => s(format!("{:?}", x)), None => J::Null }),
+                            ("alternate", J::Bool(o.alternate)),
+                            ("zero_pad", J::Bool(o.zero_pad)),
+                        ]));
+                    }
+                }
+            }
+            let cs = fa.span.source_callsite();
+            let lo = self.sm.lookup_char_pos(cs.lo());
+            let hi = self.sm.lookup_char_pos(cs.hi());
+            let own = self.sm.lookup_char_pos(fa.span.lo());
+            self.out.push(J::obj(vec![
+                ("file", s(format!("{}", lo.file.name.prefer_local_unconditionally()))),
+                ("line", i(lo.line)),
+                ("end_line", i(hi.line)),
+                ("tpl_line", i(own.line)),
+                ("nargs", i(fa.arguments.all_args().len())),
+                ("pieces", J::Arr(pieces)),
+            ]));
+        }
+        rustc_ast::visit::walk_expr(self, e);
+    }
+}
+
 struct Cb {
     out: Option<String>,
+    fmts: Vec<J>,
 }
 impl rustc_driver::Callbacks for Cb {
+    fn after_expansion<'tcx>(
+        &mut self,
+        _c: &rustc_interface::interface::Compiler,
+        tcx: TyCtxt<'tcx>,
+    ) -> rustc_driver::Compilation {
+        if self.out.is_some() {
+            let guard = tcx.resolver_for_lowering().borrow();
+            let krate = &guard.1;
+            let mut v = FmtV { sm: tcx.sess.source_map(), out: vec![] };
+            rustc_ast::visit::walk_crate(&mut v, krate);
+            self.fmts = v.out;
+        }
+        rustc_driver::Compilation::Continue
+    }
+
     fn after_analysis<'tcx>(
         &mut self,
         _c: &rustc_interface::interface::Compiler,
         tcx: TyCtxt<'tcx>,
     ) -> rustc_driver::Compilation {
         if let Some(o) = &self.out {
-            dump(tcx, o);
+            dump(tcx, o, std::mem::take(&mut self.fmts));
         }
         rustc_driver::Compilation::Continue
     }
@@ -891,6 +969,6 @@ fn main() {
     args[0] = "rustc".to_string();
     let out = std::env::var("LRFACTS_OUT").ok();
     // only dump primary (workspace) packages; CARGO_PRIMARY_PACKAGE is set for them
-    let mut cb = Cb { out };
+    let mut cb = Cb { out, fmts: vec![] };
     rustc_driver::run_compiler(&args, &mut cb);
 }
